@@ -336,7 +336,70 @@ where
             Err(_) => died += 1,
         }
     }
-    json!({"be":B::NAME,"records":total,"threads":nthreads,"ops_per_thread":nops,"threads_died":died})
+    // ---- clone storm: many threads clone and drop handles of ONE key as fast as they can (the window of a lost
+    // reference-count update is a few instructions wide), handing some clones to other threads; afterwards the key, and
+    // a clone that survived the storm, must still behave like a fresh copy
+    let storm_ms: u64 = if thorough { 3000 } else if B::VER == 1 { 300 } else { 700 };
+    let shared = Arc::new(fresh::<B>(&m));
+    let survivors: Arc<std::sync::Mutex<Vec<Keys<B>>>> = Arc::new(std::sync::Mutex::new(Vec::new()));
+    let barrier = Arc::new(Barrier::new(nthreads));
+    let storms: Vec<_> = (0..nthreads)
+        .map(|t| {
+            let (shared, barrier, survivors) = (shared.clone(), barrier.clone(), survivors.clone());
+            std::thread::spawn(move || {
+                barrier.wait();
+                let t0 = std::time::Instant::now();
+                let mut n = 0u64;
+                let mut held: Vec<(SecretKey<B>, PublicKey<B>)> = Vec::new();
+                while t0.elapsed().as_millis() < storm_ms as u128 {
+                    watchdog::beat(|| format!("{} thread {} clone storm", B::NAME, t));
+                    for _ in 0..64 {
+                        let c = shared.secret.clone();
+                        let p = shared.public.clone();
+                        let l = shared.local.clone();
+                        n += 1;
+                        if n % 7 == 0 {
+                            held.push((c, p));
+                            if held.len() > 5 {
+                                held.swap_remove((n % 5) as usize);
+                            }
+                        }
+                        drop(l);
+                    }
+                }
+                if t == 0 {
+                    if let Some((c, p)) = held.pop() {
+                        survivors.lock().unwrap().push(Keys { local: shared.local.clone(), public: p, secret: c, pke_sec: shared.pke_sec.clone() });
+                    }
+                }
+                n
+            })
+        })
+        .collect();
+    let mut clones = 0u64;
+    for j in storms {
+        match j.join() {
+            Ok(n) => clones += n,
+            Err(_) => died += 1,
+        }
+    }
+    let checker = fresh::<B>(&m);
+    let mut after = Vec::new();
+    let survivor = survivors.lock().unwrap().pop();
+    for (t, k) in [Some(&*shared), survivor.as_ref()].into_iter().flatten().enumerate() {
+        for (q, v) in VARIANTS.iter().enumerate() {
+            if *v == "pw-unwrap-rejected-params" {
+                continue;
+            }
+            watchdog::beat(|| format!("{} after clone storm ({})", B::NAME, v));
+            match catch_unwind(AssertUnwindSafe(|| apply::<B>(v, k, &m, &checker))) {
+                Ok((o, det, post)) => after.push(Raw1 { mode: "after-clone-storm", t, q, op: v.to_string(), det, out: Some(o), post, hist: 0 }),
+                Err(_) => after.push(Raw1 { mode: "after-clone-storm", t, q, op: v.to_string(), det: true, out: None, post: false, hist: 0 }),
+            }
+        }
+    }
+    total += emit_all(rec, B::NAME, &refs, after);
+    json!({"be":B::NAME,"records":total,"threads":nthreads,"ops_per_thread":nops,"threads_died":died,"storm_clones":clones})
 }
 
 pub fn run(rec: &mut Recorder, cases: &str, thorough: bool, seed: u64) -> Vec<Value> {
